@@ -3,12 +3,16 @@ import AscentVerif.Driver.LatTypes
 import AscentVerif.Driver.Idx
 import AscentVerif.Driver.Engine
 import AscentVerif.Driver.UF
+import AscentVerif.Driver.TrInd
+import AscentVerif.Driver.EngDs
 open AscentVerif AscentVerif.Driver
 
 structure St where
   idx : Store := []
   eng : EngStore := {}
   uf : UFStore := {}
+  tri : TriStore := {}
+  dsx : DsStore := {}
 
 def step (st : St) (line : String) : St × String :=
   match Sexp.parseLine line with
@@ -27,6 +31,14 @@ def step (st : St) (line : String) : St × String :=
   | some (.atom "tr" :: rest) =>
     match handleTr st.uf rest with
     | some (s', out) => ({ st with uf := s' }, out)
+    | none => (st, "bad-op")
+  | some (.atom "tri" :: rest) =>
+    match handleTri st.tri rest with
+    | some (s', out) => ({ st with tri := s' }, out)
+    | none => (st, "bad-op")
+  | some (.atom "dsx" :: rest) =>
+    match handleDsx st.dsx rest with
+    | some (s', out) => ({ st with dsx := s' }, out)
     | none => (st, "bad-op")
   | some (.atom "eng" :: rest) =>
     match handleEng st.eng rest with
